@@ -210,6 +210,26 @@ def mutate(rng, root):
     return "numeric %s.entries at $" % k
 
 
+def _far_apart(da, db):
+    """Do two documents differ structurally, or in some number by more than 1e-9 relative / absolute (i.e. far outside
+    a tolerance of 1e-12)?"""
+    if type(da) is not type(db) and not (isinstance(da, (int, float)) and isinstance(db, (int, float))):
+        return True
+    if isinstance(da, dict):
+        return set(da) != set(db) or any(_far_apart(da[k_], db[k_]) for k_ in da)
+    if isinstance(da, list):
+        return len(da) != len(db) or any(_far_apart(x_, y_) for x_, y_ in zip(da, db))
+    if isinstance(da, str):
+        if da in ("nan", "inf", "-inf") or db in ("nan", "inf", "-inf"):
+            return da != db
+        return da != db
+    if isinstance(da, bool) or isinstance(db, bool):
+        return da != db
+    if isinstance(da, (int, float)):
+        return abs(da - db) > 1e-9 * max(abs(da), abs(db), 1.0)
+    return da != db
+
+
 SIBLING = {"Label": "UntypedLabel", "UntypedLabel": "Label", "Index": "Branch", "Branch": "Index", "IrregularlyBin": "Stack", "Stack": "IrregularlyBin"}
 
 
@@ -393,6 +413,11 @@ def run_case(i, rng, tier):
                 failures.append(C.fail(None, "comparison under tolerance 1e-12 raised", **wit))
             elif (res["a==b"] and not res2["a==b"]) or (res["b==a"] and not res2["b==a"]):
                 failures.append(C.fail(None, "a positive tolerance narrowed equality (mutation: %s)" % desc, **wit))
+            elif mutated and not same_content and desc and not desc.startswith("tiny") and (res2["a==b"] or res2["b==a"]) and _far_apart(da, db):
+                # a tolerance of 1e-12 widens the comparison of numbers by 1e-12, not to "anything goes": contents that
+                # differ by a whole unit, a key, a bin or a type stay unequal
+                d = O.diff(da, db, 0.0, drop_names=True, exact=True)
+                failures.append(C.fail(None, "at tolerance 1e-12 a == b although the contents differ by far more (mutation: %s): %s" % (desc, C.fmt_diff(d)), **wit))
 
     return {
         "digest": C.digest(sp, stream, clone_kind, desc),
